@@ -55,22 +55,25 @@ let range (lo : int) (hi : int) (step : int) (blob : string) (f : n -> string ->
   | None, Some (c, m) -> Printf.sprintf "M%d:%s 1" c m
   | None, None -> "= 1"
 
+(* character kind of the case line -> sizeof(Char_T): 1, 2, 4 as is, 5 = wchar_t *)
+let wd (s : string) : n = c20_width (n_of_string s)
+
 let comp_uni line =
   match tokens line with
   | ["E"; w; cp; impl] ->
-    let (m, v) = one_e (n_of_string w) (n_of_string cp) impl in
+    let (m, v) = one_e (wd w) (n_of_string cp) impl in
     m ^ " " ^ fmt_bool v
   | ["J"; w; k1; k2; cp; pre; post; impl] ->
-    let (m, v) = one_j (n_of_string w) (ecase_of_int (int_of_string k1)) (ecase_of_int (int_of_string k2))
+    let (m, v) = one_j (wd w) (ecase_of_int (int_of_string k1)) (ecase_of_int (int_of_string k2))
         (n_of_string cp) (parse_list pre) (parse_list post) impl in
     m ^ " " ^ fmt_bool v
   | ["T"; w; body; _impl] ->
-    fmt_pres (c20_model_raw (n_of_string w) (parse_list body)) ^ " 1"
+    fmt_pres (c20_model_raw (wd w) (parse_list body)) ^ " 1"
   | ["R"; "E"; w; lo; hi; step; blob] ->
-    let w = n_of_string w in
+    let w = wd w in
     range (int_of_string lo) (int_of_string hi) (int_of_string step) blob (fun cp impl -> one_e w cp impl)
   | ["R"; "J"; w; k1; k2; lo; hi; step; pre; post; blob] ->
-    let w = n_of_string w and k1 = ecase_of_int (int_of_string k1) and k2 = ecase_of_int (int_of_string k2) in
+    let w = wd w and k1 = ecase_of_int (int_of_string k1) and k2 = ecase_of_int (int_of_string k2) in
     let pre = parse_list pre and post = parse_list post in
     range (int_of_string lo) (int_of_string hi) (int_of_string step) blob (fun cp impl -> one_j w k1 k2 cp pre post impl)
   | _ -> "BADCASE"
